@@ -15,8 +15,10 @@ import (
 	"time"
 
 	proto "github.com/kubewharf/kubebrain-client/api/v2rpc"
+	"go.etcd.io/etcd/api/v3/etcdserverpb"
 
 	"github.com/kubewharf/kubebrain/pkg/backend"
+	"github.com/kubewharf/kubebrain/pkg/server/etcd"
 	"github.com/kubewharf/kubebrain/pkg/storage"
 	"github.com/kubewharf/kubebrain/pkg/verifhook"
 )
@@ -41,6 +43,10 @@ type ConcCase struct {
 	// Compactor adds one more client that compacts at the revision committed when it starts, its storage calls
 	// (record update, iterator, every delete) scheduled like everybody else's
 	Compactor bool `json:"compactor,omitempty"`
+	// API "etcd": the clients' writes go through the etcd-compatible server (the transaction shapes kube-apiserver
+	// issues) instead of the native backend calls; answers are translated back (success flag, header revision,
+	// key-value of the failure branch)
+	API string `json:"api,omitempty"`
 }
 
 // ConcExpClasses are the expected-revision classes used under concurrency
@@ -118,9 +124,13 @@ func RunConc(c *ConcCase) (*ConcHistory, error) {
 			defer backend.SetRetryIntervalsForVerif(5*time.Second, time.Second)
 		}
 	}
-	env, err := NewSeqEnv(SeqOpts{Engine: c.Engine, Keys: keys, UseShim: true, Backend: BackendOpts{CacheSize: 1024}})
+	env, err := NewSeqEnv(SeqOpts{Engine: c.Engine, Keys: keys, UseShim: true, Backend: BackendOpts{CacheSize: 1024, Etcd: c.API == "etcd"}})
 	if err != nil {
 		return nil, Inconclusivef("engine: %v", err)
+	}
+	var etcdSrv *etcd.RPCServer
+	if c.API == "etcd" {
+		etcdSrv = etcd.New(env.B, NopMetrics, &ScriptedPeers{Leader: true})
 	}
 	h := &ConcHistory{Case: c, Env: env}
 	for i, op := range c.Prelude {
@@ -374,20 +384,49 @@ func RunConc(c *ConcCase) (*ConcHistory, error) {
 					kv        *proto.KeyValue
 					err       error
 				)
-				switch op.Kind {
-				case "create":
+				if c.API == "etcd" {
+					var req *etcdserverpb.TxnRequest
+					switch {
+					case op.Kind == "create":
+						req = txnCreate([]byte(key), val)
+					case op.Kind == "update":
+						req = txnUpdate([]byte(key), val, int64(r.Exp))
+					case r.Exp == 0:
+						req = txnUnguardedDelete([]byte(key))
+					default:
+						req = txnDelete([]byte(key), int64(r.Exp))
+					}
+					var resp *etcdserverpb.TxnResponse
+					resp, err = etcdSrv.Txn(ctx, req)
+					if resp != nil {
+						succeeded = resp.Succeeded
+						if resp.Header != nil {
+							hdr = &proto.ResponseHeader{Revision: uint64(resp.Header.Revision)}
+						}
+						// the failure branch (and the unguarded delete's get) carries the current key-value
+						for _, ro := range resp.Responses {
+							if rr := ro.GetResponseRange(); rr != nil && len(rr.Kvs) > 0 && (!succeeded || op.Kind == "delete") {
+								kv = &proto.KeyValue{Key: rr.Kvs[0].Key, Value: rr.Kvs[0].Value, Revision: uint64(rr.Kvs[0].ModRevision)}
+							}
+						}
+					}
+				}
+				switch {
+				case c.API == "etcd":
+					// done above
+				case op.Kind == "create":
 					var resp *proto.CreateResponse
 					resp, err = env.B.Create(ctx, &proto.CreateRequest{Key: []byte(key), Value: val})
 					if resp != nil {
 						hdr, succeeded = resp.Header, resp.Succeeded
 					}
-				case "update":
+				case op.Kind == "update":
 					var resp *proto.UpdateResponse
 					resp, err = env.B.Update(ctx, &proto.UpdateRequest{Kv: &proto.KeyValue{Key: []byte(key), Value: val, Revision: r.Exp}})
 					if resp != nil {
 						hdr, succeeded, kv = resp.Header, resp.Succeeded, resp.Kv
 					}
-				case "delete":
+				case op.Kind == "delete":
 					var resp *proto.DeleteResponse
 					resp, err = env.B.Delete(ctx, &proto.DeleteRequest{Key: []byte(key), Revision: r.Exp})
 					if resp != nil {
